@@ -358,6 +358,24 @@ fn run(ctx: &mut Ctx) {
         banks.push(event::trg_bank(9));
         exercise(ctx, u32::MAX, &banks, "several pad clusters and wire hits in one time bin");
     });
+    // ---- wire packets whose header asks for 0..=67 samples while carrying 0..=66 of them (and the other way round)
+    ctx.cases("short-wires", 8, |ctx, i, rng| {
+        for rs in [0u16, 1, 2, 3, 4, 63, 64, 65, 66, 67] {
+            for wl in [0usize, 1, 2, 10, 61, 62, 63, 64, 65] {
+                let w = rng.usize(256);
+                let (name, mac, ch) = &inv.wire[w];
+                let mut a = Adc::simple(*mac, *ch, (0..wl).map(|_| 3000 + (rng.gauss() * 3.0) as i16).collect());
+                a.requested_samples = rs;
+                if i % 2 == 1 {
+                    a.suppression = true;
+                    a.keep_bit = true;
+                    a.keep_last = 34;
+                }
+                let nm = format!("C{}{}", name, std::char::from_digit(*ch as u32, 32).unwrap().to_ascii_uppercase());
+                exercise(ctx, u32::MAX, &vec![(nm, a.encode()), event::trg_bank(5)], "wire packet with a tiny requested_samples / waveform");
+            }
+        }
+    });
     ctx.cases("foreign-packet", 32, |ctx, col, rng| {
         let mut pm = BTreeMap::new();
         pm.insert((col as usize, rng.usize(576)), (0..300).map(|_| 1725 + (rng.gauss() * 3.0) as i16).collect::<Vec<i16>>());
